@@ -106,9 +106,13 @@ def run_property(pid, tier, write=True, root=None):
         visited |= set(it.visited_funcs)
         decorated_ok |= set(it.decorated_ok)
     try:
-        from .props.common import python_traps, dtype_store_sweep, input_assertions
-        python_traps(rep, prog, visited)
-        input_assertions(rep, prog, visited)
+        from .props.common import python_traps, dtype_store_sweep, input_assertions, index_truthiness
+        linted = set(visited)
+        for it in _core.ALL_INTERPS:
+            linted |= set(getattr(it, "fused_funcs", ()))
+        python_traps(rep, prog, linted)
+        input_assertions(rep, prog, linted)
+        index_truthiness(rep, prog, linted)
         dtype_store_sweep(rep, prog, _core.ALL_INTERPS)
     except Exception:
         traceback.print_exc()
